@@ -15,6 +15,7 @@ import (
 	"go/token"
 	"go/types"
 	"reflect"
+	"sync"
 	"unsafe"
 
 	"golang.org/x/tools/go/ssa"
@@ -49,18 +50,60 @@ func makeNamedType(name string, underlying types.Type) *types.Named {
 	return types.NewNamed(obj, underlying, nil)
 }
 
+// rmeta is the addressability information of a reflect.Value (symgo): addr is
+// the cell the value lives in (nil: not addressable); ro marks values obtained
+// through unexported struct fields.
+type rmeta struct {
+	addr *value
+	ro   bool
+}
+
 func makeReflectValue(t types.Type, v value) value {
-	return structure{rtype{t}, v}
+	return structure{rtype{t}, v, nil}
+}
+
+func makeReflectValueAt(t types.Type, addr *value, ro bool) value {
+	return structure{rtype{t}, nil, &rmeta{addr: addr, ro: ro}}
+}
+
+func rvMeta(v value) *rmeta {
+	s := v.(structure)
+	if len(s) < 3 {
+		return nil
+	}
+	m, _ := s[2].(*rmeta)
+	return m
+}
+
+// rvValid: the zero reflect.Value has no type.
+func rvValid(v value) bool {
+	rt, ok := v.(structure)[0].(rtype)
+	return ok && rt.t != nil
+}
+
+func rvMust(v value, method string) {
+	if !rvValid(v) {
+		panic(runtimeErrorString("reflect: call of reflect.Value." + method + " on zero Value"))
+	}
 }
 
 // Given a reflect.Value, returns its rtype.
 func rV2T(v value) rtype {
-	return v.(structure)[0].(rtype)
+	rt, _ := v.(structure)[0].(rtype)
+	return rt
 }
 
-// Given a reflect.Value, returns the underlying interpreter value.
+// Given a reflect.Value, returns the underlying interpreter value (read
+// through the address for addressable values).
 func rV2V(v value) value {
-	return v.(structure)[1]
+	if m := rvMeta(v); m != nil && m.addr != nil {
+		return load(rV2T(v).t, m.addr)
+	}
+	x := v.(structure)[1]
+	if _, isZeroIface := x.(iface); isZeroIface && !rvValid(v) {
+		return nil
+	}
+	return x
 }
 
 // makeReflectType boxes up an rtype in a reflect.Type interface.
@@ -80,9 +123,32 @@ func ext۰reflect۰rtype۰Bits(fr *frame, args []value) value {
 
 func ext۰reflect۰rtype۰Elem(fr *frame, args []value) value {
 	// Signature: func (t reflect.rtype) reflect.Type
-	return makeReflectType(rtype{args[0].(rtype).t.Underlying().(interface {
+	e, ok := args[0].(rtype).t.Underlying().(interface {
 		Elem() types.Type
-	}).Elem()})
+	})
+	if !ok {
+		panic(runtimeErrorString("reflect: Elem of invalid type " + args[0].(rtype).t.String()))
+	}
+	return makeReflectType(rtype{e.Elem()})
+}
+
+func ext۰reflect۰rtype۰AssignableTo(fr *frame, args []value) value {
+	// Signature: func (t reflect.rtype, u reflect.Type) bool
+	u, _ := args[1].(iface).v.(rtype)
+	if u.t == nil {
+		panic(runtimeErrorString("reflect: nil type passed to Type.AssignableTo"))
+	}
+	return types.AssignableTo(args[0].(rtype).t, u.t)
+}
+
+func ext۰reflect۰rtype۰Name(fr *frame, args []value) value {
+	if n, ok := args[0].(rtype).t.(*types.Named); ok {
+		return n.Obj().Name()
+	}
+	if b, ok := args[0].(rtype).t.(*types.Basic); ok {
+		return b.Name()
+	}
+	return ""
 }
 
 func ext۰reflect۰rtype۰Field(fr *frame, args []value) value {
@@ -90,9 +156,13 @@ func ext۰reflect۰rtype۰Field(fr *frame, args []value) value {
 	st := args[0].(rtype).t.Underlying().(*types.Struct)
 	i := args[1].(int)
 	f := st.Field(i)
+	pkgPath := ""
+	if !f.Exported() && f.Pkg() != nil {
+		pkgPath = f.Pkg().Path()
+	}
 	return structure{
 		f.Name(),
-		f.Pkg().Path(),
+		pkgPath,
 		makeReflectType(rtype{f.Type()}),
 		st.Tag(i),
 		0,         // TODO(adonovan): offset
@@ -162,12 +232,18 @@ func ext۰reflect۰SliceOf(fr *frame, args []value) value {
 
 func ext۰reflect۰TypeOf(fr *frame, args []value) value {
 	// Signature: func (t reflect.rtype) Type
+	if args[0].(iface).t == nil {
+		return iface{}
+	}
 	return makeReflectType(rtype{args[0].(iface).t})
 }
 
 func ext۰reflect۰ValueOf(fr *frame, args []value) value {
 	// Signature: func (interface{}) reflect.Value
 	itf := args[0].(iface)
+	if itf.t == nil {
+		return structure{rtype{nil}, nil, nil}
+	}
 	return makeReflectValue(itf.t, itf.v)
 }
 
@@ -242,12 +318,20 @@ func reflectKind(t types.Type) reflect.Kind {
 
 func ext۰reflect۰Value۰Kind(fr *frame, args []value) value {
 	// Signature: func (reflect.Value) uint
+	if !rvValid(args[0]) {
+		return uint(reflect.Invalid)
+	}
 	return uint(reflectKind(rV2T(args[0]).t))
 }
 
 func ext۰reflect۰Value۰String(fr *frame, args []value) value {
 	// Signature: func (reflect.Value) string
 	return toString(rV2V(args[0]))
+}
+
+func ext۰reflect۰Value۰TypeChecked(fr *frame, args []value) value {
+	rvMust(args[0], "Type")
+	return makeReflectType(rV2T(args[0]))
 }
 
 func ext۰reflect۰Value۰Type(fr *frame, args []value) value {
@@ -379,8 +463,8 @@ func ext۰reflect۰Value۰Bool(fr *frame, args []value) value {
 
 func ext۰reflect۰Value۰CanAddr(fr *frame, args []value) value {
 	// Signature: func (v reflect.Value) bool
-	// Always false for our representation.
-	return false
+	m := rvMeta(args[0])
+	return rvValid(args[0]) && m != nil && m.addr != nil
 }
 
 func ext۰reflect۰Value۰CanInterface(fr *frame, args []value) value {
@@ -391,25 +475,99 @@ func ext۰reflect۰Value۰CanInterface(fr *frame, args []value) value {
 
 func ext۰reflect۰Value۰Elem(fr *frame, args []value) value {
 	// Signature: func (v reflect.Value) reflect.Value
-	switch x := rV2V(args[0]).(type) {
-	case iface:
-		return makeReflectValue(x.t, x.v)
-	case *value:
-		var v value
-		if x != nil {
-			v = *x
-		}
-		return makeReflectValue(rV2T(args[0]).t.Underlying().(*types.Pointer).Elem(), v)
-	default:
-		panic(fmt.Sprintf("reflect.(Value).Elem(%T)", x))
+	rvMust(args[0], "Elem")
+	ro := false
+	if m := rvMeta(args[0]); m != nil {
+		ro = m.ro
 	}
+	switch t := rV2T(args[0]).t.Underlying().(type) {
+	case *types.Pointer:
+		x, _ := rV2V(args[0]).(*value)
+		if x == nil {
+			return structure{rtype{nil}, nil, nil}
+		}
+		return makeReflectValueAt(t.Elem(), x, ro)
+	case *types.Interface:
+		x, _ := rV2V(args[0]).(iface)
+		if x.t == nil {
+			return structure{rtype{nil}, nil, nil}
+		}
+		return makeReflectValue(x.t, x.v)
+	}
+	panic(runtimeErrorString("reflect: call of reflect.Value.Elem on " + rV2T(args[0]).t.String() + " Value"))
 }
 
 func ext۰reflect۰Value۰Field(fr *frame, args []value) value {
 	// Signature: func (v reflect.Value, i int) reflect.Value
 	v := args[0]
-	i := args[1].(int)
-	return makeReflectValue(rV2T(v).t.Underlying().(*types.Struct).Field(i).Type(), rV2V(v).(structure)[i])
+	rvMust(v, "Field")
+	st, ok := rV2T(v).t.Underlying().(*types.Struct)
+	if !ok {
+		panic(runtimeErrorString("reflect: call of reflect.Value.Field on " + rV2T(v).t.String() + " Value"))
+	}
+	i := int(asInt64(args[1]))
+	if i < 0 || i >= st.NumFields() {
+		panic(runtimeErrorString("reflect: Field index out of range"))
+	}
+	f := st.Field(i)
+	m := rvMeta(v)
+	ro := !f.Exported() || (m != nil && m.ro)
+	if m != nil && m.addr != nil {
+		return makeReflectValueAt(f.Type(), &(*m.addr).(structure)[i], ro)
+	}
+	r := makeReflectValue(f.Type(), rV2V(v).(structure)[i]).(structure)
+	if ro {
+		r[2] = &rmeta{ro: true}
+	}
+	return r
+}
+
+func ext۰reflect۰Value۰Addr(fr *frame, args []value) value {
+	rvMust(args[0], "Addr")
+	m := rvMeta(args[0])
+	if m == nil || m.addr == nil {
+		panic(runtimeErrorString("reflect.Value.Addr of unaddressable value"))
+	}
+	r := makeReflectValue(types.NewPointer(rV2T(args[0]).t), m.addr).(structure)
+	if m.ro {
+		r[2] = &rmeta{ro: true}
+	}
+	return r
+}
+
+func ext۰reflect۰Value۰CanSet(fr *frame, args []value) value {
+	m := rvMeta(args[0])
+	return rvValid(args[0]) && m != nil && m.addr != nil && !m.ro
+}
+
+func ext۰reflect۰Append(fr *frame, args []value) value {
+	// Signature: func Append(s Value, x ...Value) Value
+	s := args[0]
+	rvMust(s, "Append")
+	st, ok := rV2T(s).t.Underlying().(*types.Slice)
+	if !ok {
+		panic(runtimeErrorString("reflect: call of reflect.Append on " + rV2T(s).t.String() + " Value"))
+	}
+	cur, _ := rV2V(s).([]value)
+	var add []value
+	for _, x := range args[1].([]value) {
+		rvMust(x, "Append")
+		if !types.AssignableTo(rV2T(x).t, st.Elem()) {
+			panic(runtimeErrorString("reflect.Set: value of type " + rV2T(x).t.String() + " is not assignable to type " + st.Elem().String()))
+		}
+		add = append(add, convertForAssign(st.Elem(), rV2T(x).t, rV2V(x)))
+	}
+	return makeReflectValue(rV2T(s).t, fr.i.appendValues(cur, add))
+}
+
+// convertForAssign boxes a concrete value when it is assigned to an interface type.
+func convertForAssign(dst, src types.Type, v value) value {
+	if _, isIface := dst.Underlying().(*types.Interface); isIface {
+		if _, srcIface := src.Underlying().(*types.Interface); !srcIface {
+			return iface{t: src, v: v}
+		}
+	}
+	return v
 }
 
 func ext۰reflect۰Value۰Float(fr *frame, args []value) value {
@@ -472,17 +630,53 @@ func ext۰reflect۰Value۰IsNil(fr *frame, args []value) value {
 
 func ext۰reflect۰Value۰IsValid(fr *frame, args []value) value {
 	// Signature: func (reflect.Value) bool
-	return rV2V(args[0]) != nil
+	return rvValid(args[0])
 }
 
 func ext۰reflect۰Value۰Set(fr *frame, args []value) value {
-	// TODO(adonovan): implement.
+	// Signature: func (v Value) Set(x Value)
+	v, x := args[0], args[1]
+	rvMust(v, "Set")
+	m := rvMeta(v)
+	if m == nil || m.addr == nil {
+		panic(runtimeErrorString("reflect: reflect.Value.Set using unaddressable value"))
+	}
+	if m.ro {
+		panic(runtimeErrorString("reflect: reflect.Value.Set using value obtained using unexported field"))
+	}
+	rvMust(x, "Set")
+	if xm := rvMeta(x); xm != nil && xm.ro {
+		panic(runtimeErrorString("reflect: reflect.Value.Set using value obtained using unexported field"))
+	}
+	if !types.AssignableTo(rV2T(x).t, rV2T(v).t) {
+		panic(runtimeErrorString("reflect.Set: value of type " + rV2T(x).t.String() + " is not assignable to type " + rV2T(v).t.String()))
+	}
+	fr.i.store(rV2T(v).t, m.addr, copyValue(rV2T(x).t, convertForAssign(rV2T(v).t, rV2T(x).t, rV2V(x))))
 	return nil
+}
+
+// copyValue makes a value copy of aggregates (structs, arrays) so that the
+// destination does not alias the source.
+func copyValue(t types.Type, v value) value {
+	switch v := v.(type) {
+	case structure, array:
+		tmp := value(v)
+		return load(t, &tmp)
+	}
+	return v
 }
 
 func ext۰reflect۰valueInterface(fr *frame, args []value) value {
 	// Signature: func (v reflect.Value, safe bool) interface{}
 	v := args[0].(structure)
+	rvMust(v, "Interface")
+	if m := rvMeta(v); m != nil && m.ro {
+		panic(runtimeErrorString("reflect.Value.Interface: cannot return value obtained from unexported field or method"))
+	}
+	if _, isIface := rV2T(v).t.Underlying().(*types.Interface); isIface {
+		x, _ := rV2V(v).(iface)
+		return x
+	}
 	return iface{rV2T(v).t, rV2V(v)}
 }
 
@@ -501,6 +695,11 @@ func newMethod(pkg *ssa.Package, recvType types.Type, name string) *ssa.Function
 	fn.Pkg = pkg
 	return fn
 }
+
+var (
+	reflectPatchMu sync.Mutex
+	reflectPatched = map[*ssa.Program]bool{}
+)
 
 func initReflect(i *interpreter) {
 	i.reflectPackage = &ssa.Package{
@@ -523,7 +722,11 @@ func initReflect(i *interpreter) {
 	// One approach would be not to even load its source code, but
 	// provide fake source files.  This would guarantee that no bad
 	// information leaks into other packages.
-	if r := i.prog.ImportedPackage("reflect"); r != nil {
+	reflectPatchMu.Lock()
+	patched := reflectPatched[i.prog]
+	reflectPatched[i.prog] = true
+	reflectPatchMu.Unlock()
+	if r := i.prog.ImportedPackage("reflect"); r != nil && !patched {
 		rV := r.Pkg.Scope().Lookup("Value").Type().(*types.Named)
 
 		// delete bodies of the old methods
@@ -536,6 +739,7 @@ func initReflect(i *interpreter) {
 		rV.SetUnderlying(types.NewStruct([]*types.Var{
 			types.NewField(token.NoPos, r.Pkg, "t", tEface, false), // a lie
 			types.NewField(token.NoPos, r.Pkg, "v", tEface, false),
+			types.NewField(token.NoPos, r.Pkg, "m", tEface, false), // symgo: addressability
 		}, nil))
 	}
 
@@ -552,6 +756,8 @@ func initReflect(i *interpreter) {
 		"Out":       newMethod(i.reflectPackage, rtypeType, "Out"),
 		"Size":      newMethod(i.reflectPackage, rtypeType, "Size"),
 		"String":    newMethod(i.reflectPackage, rtypeType, "String"),
+		"AssignableTo": newMethod(i.reflectPackage, rtypeType, "AssignableTo"),
+		"Name":      newMethod(i.reflectPackage, rtypeType, "Name"),
 	}
 	i.errorMethods = methodSet{
 		"Error": newMethod(i.reflectPackage, errorType, "Error"),
